@@ -16,6 +16,17 @@
      AppRecv        RadioDriver.receive_packet returned the head of in_queue (a non-null packet;
                     returning a null packet is a stuttering step)
      CfQueue(pk)    the Crazyflie queued pk for the host
+   life cycle (RadioDriver.pause() / restart(), the same driver object runs a new comm thread):
+     PauseReq       stop(): _sp := True, the caller waits in join().  The loop looks at _sp only at
+                    its top (after the start-up loop, after a lost frame's `continue`, after the
+                    look into out_queue): the step that reaches the top with _sp set ends the
+                    thread (pc = "paused"); whatever is in dataOut then -- the unacknowledged frame
+                    or the packet just taken from out_queue -- is abandoned, as the code does.
+                    A loop that is already past the check transmits once more.
+     Restart        restart(): a new _RadioDriverThread (bits 0/1, no safelink, fresh retry counter,
+                    dataOut = ff) on the same queues and the same link object: needs_resending is
+                    NOT touched until the new start-up loop is through.
+     Reboot(mode)   (environment, while paused) the Crazyflie comes back with another firmware
    Bug # "none" switches on a named breakage (vacuity guards, MC_Safelink_bug_*.cfg).
 
    The per-session parameters (retries, negotiation attempts, peer kind) are variables fixed by
@@ -27,6 +38,7 @@ CONSTANTS NUp, NDown,     \* packets the application submits / the Crazyflie que
           NegAttempts,    \* 10 in the code
           MaxLoss,        \* budget of non-"A" main-loop outcomes ("A" is unlimited)
           MaxNegLoss,     \* budget of non-"A" start-up outcomes
+          MaxRestarts,    \* pause()/restart() cycles (MC bound)
           PeerModes,      \* subset of {"sl","nosl","deny"}
           DenyReplies,    \* set of byte sequences a "deny" peer may answer with
           AckTails,       \* set of byte sequences following the header of an empty ack
@@ -36,7 +48,8 @@ P == INSTANCE SafelinkProps
 
 VARIABLES
     retries, negAtt,           \* session parameters (constant after Init)
-    pc,                        \* "neg" | "tx" | "put" | "get"
+    pc,                        \* "neg" | "tx" | "put" | "get" | "paused" (no comm thread)
+    sp, nPause,                \* _sp of the running thread; pause() calls so far
     negLeft, hasSL, hUp, hDown,
     frame,                     \* dataOut
     retryLeft,                 \* _retry_before_disconnect
@@ -49,7 +62,7 @@ VARIABLES
     nSub, nQ, lossLeft, negLossLeft,   \* environment budgets
     h                          \* observable history (record of SafelinkProps)
 
-vars == <<retries, negAtt, pc, negLeft, hasSL, hUp, hDown, frame, retryLeft, pend, outQ, inQ,
+vars == <<retries, negAtt, pc, sp, nPause, negLeft, hasSL, hUp, hDown, frame, retryLeft, pend, outQ, inQ,
           needsRes, peer, nSub, nQ, lossLeft, negLossLeft, h>>
 
 Outcomes == {"A", "U", "L"}
@@ -58,12 +71,12 @@ UpPk(i) == <<60 + (i % 2), i>>          \* port 3 / channel 0|1, header bits 2,3
 DnPk(j) == <<80 + (j % 2), 100 + j>>    \* port 5
 
 H0(mode) == [acc |-> <<>>, cf |-> <<>>, cfq |-> <<>>, got |-> <<>>, link |-> <<>>,
-             echo |-> FALSE, slUsed |-> FALSE, nrFalse |-> FALSE, peerSL |-> (mode = "sl"),
-             failed |-> FALSE]
+             echo |-> FALSE, conf |-> FALSE, slUsed |-> FALSE, nrFalse |-> FALSE, peerSL |-> (mode = "sl"),
+             failed |-> FALSE, closed |-> FALSE]
 
 InitWith(r, na, mode, tail, deny) ==
     /\ retries = r /\ negAtt = na
-    /\ pc = "neg" /\ negLeft = na /\ hasSL = FALSE /\ hUp = 0 /\ hDown = 1
+    /\ pc = "neg" /\ sp = FALSE /\ nPause = 0 /\ negLeft = na /\ hasSL = FALSE /\ hUp = 0 /\ hDown = 1
     /\ frame = NullFrame /\ retryLeft = r /\ pend = <<>>
     /\ outQ = <<>> /\ inQ = <<>> /\ needsRes = TRUE
     /\ peer = P!PeerInit(mode, tail, deny)
@@ -75,7 +88,9 @@ Init == /\ \E mode \in PeerModes, tail \in AckTails, deny \in DenyReplies :
         /\ lossLeft = MaxLoss /\ negLossLeft = MaxNegLoss
 
 \* packet histories are those "short of a link failure": frozen at the first report
-Hist(s, p) == IF h.failed THEN s ELSE P!AddPkt(s, p)
+Hist(s, p) == IF P!Frozen(h) THEN s ELSE P!AddPkt(s, p)
+\* the loop top: `if self._sp: break`
+Top == IF sp THEN "paused" ELSE "tx"
 \* link history: only the part since the last acknowledged transmission matters to the clause
 LinkApp(l, x) == P!LinkAppend(l, x)
 
@@ -94,13 +109,15 @@ NegTx(o) ==
           /\ hUp' = IF echo THEN 0 ELSE hUp
           /\ hDown' = IF echo THEN 0 ELSE hDown
           /\ negLeft' = IF echo THEN 0 ELSE negLeft - 1
-          /\ pc' = IF last THEN "tx" ELSE "neg"
-          /\ needsRes' = IF last THEN (IF Bug = "never_needs_resending" THEN FALSE ELSE ~echo)
+          /\ pc' = IF last THEN Top ELSE "neg"
+          /\ needsRes' = IF Bug = "nr_only_on_success" THEN (IF echo THEN FALSE ELSE needsRes)
+                         ELSE IF last THEN (IF Bug = "never_needs_resending" THEN FALSE ELSE ~echo)
                          ELSE needsRes
           /\ h' = [h EXCEPT !.echo = @ \/ P!IsEchoReply(rep),
+                            !.conf = @ \/ (~h.closed /\ P!IsEchoReply(rep)),
                             !.cf = IF o # "U" /\ r.new THEN Hist(@, P!NegFrame) ELSE @,
                             !.nrFalse = @ \/ (last /\ ~needsRes')]
-    /\ UNCHANGED <<retries, negAtt, frame, retryLeft, pend, outQ, inQ, nSub, nQ, lossLeft>>
+    /\ UNCHANGED <<retries, negAtt, sp, nPause, frame, retryLeft, pend, outQ, inQ, nSub, nQ, lossLeft>>
 
 \* ---------------------------------------------------------------- main loop
 Wire == IF hasSL THEN <<P!WithBits(frame[1], hUp, hDown)>> \o Tail(frame) ELSE frame
@@ -127,26 +144,26 @@ DataTx(o) ==
           /\ retryLeft' = rl
           /\ pend' = data
           /\ pc' = IF acked THEN (IF Len(data) > 0 THEN "put" ELSE "get")
-                   ELSE IF Bug = "dequeue_on_lost" THEN "get" ELSE "tx"
+                   ELSE IF Bug = "dequeue_on_lost" THEN "get" ELSE Top
           /\ h' = [h EXCEPT !.cf = IF o # "U" /\ r.new THEN Hist(@, w) ELSE @,
                             !.link = IF report THEN Append(lk, "E") ELSE lk,
                             !.failed = @ \/ report,
                             !.slUsed = @ \/ (P!Bit3(w[1]) + P!Bit2(w[1]) # 2)]
-    /\ UNCHANGED <<retries, negAtt, negLeft, hasSL, outQ, inQ, needsRes, nSub, nQ, negLossLeft>>
+    /\ UNCHANGED <<retries, negAtt, sp, nPause, negLeft, hasSL, outQ, inQ, needsRes, nSub, nQ, negLossLeft>>
 
 InPut ==
     /\ pc = "put"
     /\ inQ' = IF P!IsNull(pend) THEN inQ ELSE Append(inQ, pend)   \* nulls abstracted away, see inQ
     /\ pc' = "get"
-    /\ UNCHANGED <<retries, negAtt, negLeft, hasSL, hUp, hDown, frame, retryLeft, pend, outQ,
+    /\ UNCHANGED <<retries, negAtt, sp, nPause, negLeft, hasSL, hUp, hDown, frame, retryLeft, pend, outQ,
                    needsRes, peer, nSub, nQ, lossLeft, negLossLeft, h>>
 
 OutGet ==
     /\ pc = "get"
     /\ IF outQ # <<>> THEN frame' = Head(outQ) /\ outQ' = <<>>
                       ELSE frame' = NullFrame /\ outQ' = outQ
-    /\ pc' = "tx"
-    /\ UNCHANGED <<retries, negAtt, negLeft, hasSL, hUp, hDown, retryLeft, pend, inQ,
+    /\ pc' = Top
+    /\ UNCHANGED <<retries, negAtt, sp, nPause, negLeft, hasSL, hUp, hDown, retryLeft, pend, inQ,
                    needsRes, peer, nSub, nQ, lossLeft, negLossLeft, h>>
 
 \* ---------------------------------------------------------------- environment
@@ -155,27 +172,50 @@ AppSubmit(pk) ==
     /\ outQ' = <<pk>>
     /\ nSub' = nSub + 1
     /\ h' = [h EXCEPT !.acc = Hist(@, pk)]
-    /\ UNCHANGED <<retries, negAtt, pc, negLeft, hasSL, hUp, hDown, frame, retryLeft, pend, inQ,
+    /\ UNCHANGED <<retries, negAtt, pc, sp, nPause, negLeft, hasSL, hUp, hDown, frame, retryLeft, pend, inQ,
                    needsRes, peer, nQ, lossLeft, negLossLeft>>
 
 AppRecv ==
     /\ inQ # <<>>
     /\ inQ' = Tail(inQ)
     /\ h' = [h EXCEPT !.got = Hist(@, Head(inQ))]
-    /\ UNCHANGED <<retries, negAtt, pc, negLeft, hasSL, hUp, hDown, frame, retryLeft, pend, outQ,
+    /\ UNCHANGED <<retries, negAtt, pc, sp, nPause, negLeft, hasSL, hUp, hDown, frame, retryLeft, pend, outQ,
                    needsRes, peer, nSub, nQ, lossLeft, negLossLeft>>
 
 CfQueue(pk) ==
     /\ peer' = P!PeerQueue(peer, pk)
     /\ nQ' = nQ + 1
     /\ h' = [h EXCEPT !.cfq = Hist(@, pk)]
-    /\ UNCHANGED <<retries, negAtt, pc, negLeft, hasSL, hUp, hDown, frame, retryLeft, pend, outQ,
+    /\ UNCHANGED <<retries, negAtt, pc, sp, nPause, negLeft, hasSL, hUp, hDown, frame, retryLeft, pend, outQ,
                    inQ, needsRes, nSub, lossLeft, negLossLeft>>
+
+\* ---------------------------------------------------------------- pause() / restart()
+PauseReq ==
+    /\ pc # "paused" /\ ~sp
+    /\ sp' = TRUE /\ nPause' = nPause + 1
+    /\ h' = [h EXCEPT !.closed = TRUE]
+    /\ UNCHANGED <<retries, negAtt, pc, negLeft, hasSL, hUp, hDown, frame, retryLeft, pend, outQ, inQ,
+                   needsRes, peer, nSub, nQ, lossLeft, negLossLeft>>
+
+Restart ==
+    /\ pc = "paused"
+    /\ pc' = "neg" /\ sp' = FALSE /\ negLeft' = negAtt /\ hasSL' = FALSE /\ hUp' = 0 /\ hDown' = 1
+    /\ frame' = NullFrame /\ retryLeft' = retries
+    /\ h' = P!SessionReset(h)
+    /\ UNCHANGED <<retries, negAtt, nPause, pend, outQ, inQ, needsRes, peer, nSub, nQ, lossLeft, negLossLeft>>
+
+Reboot(mode) ==
+    /\ pc = "paused"
+    /\ peer' = P!PeerInit(mode, peer.tail, peer.deny)
+    /\ UNCHANGED <<retries, negAtt, pc, sp, nPause, negLeft, hasSL, hUp, hDown, frame, retryLeft, pend,
+                   outQ, inQ, needsRes, nSub, nQ, lossLeft, negLossLeft, h>>
 
 Radio == (\E o \in Outcomes : NegTx(o) \/ DataTx(o)) \/ InPut \/ OutGet
 Submit == nSub < NUp /\ AppSubmit(UpPk(nSub + 1))
 Queue == nQ < NDown /\ CfQueue(DnPk(nQ + 1))
-Next == Radio \/ Submit \/ AppRecv \/ Queue
+Pause == nPause < MaxRestarts /\ PauseReq
+Next == Radio \/ Submit \/ AppRecv \/ Queue \/ Pause \/ Restart
+           \/ (\E m \in PeerModes : m # peer.mode /\ Reboot(m))
 
 Spec == Init /\ [][Next]_vars
 \* the radio loop and the receiving application thread keep running; once the loss budget is
@@ -186,15 +226,21 @@ FairSpec == Spec /\ WF_vars(Radio) /\ WF_vars(AppRecv)
 PropertyHolds == P!HistoryOK(h, retries)                    \* C01, safety part
 StepFormHolds == P!StepClause(h, retries) = "ok"
 \* completeness at rest: nothing in flight on either side => everything has arrived
-AtRest == pc = "tx" /\ outQ = <<>> /\ inQ = <<>> /\ P!IsNull(frame) /\ peer.txq = <<>>
+AtRest == pc = "tx" /\ ~sp /\ outQ = <<>> /\ inQ = <<>> /\ P!IsNull(frame) /\ peer.txq = <<>>
 CompleteAtRest == AtRest => P!UpComplete(h) /\ P!DownComplete(h)
 \* design facts the binding relies on
 SafelinkIffEcho == hasSL => h.echo
+\* per start-up: once the start-up loop is through, needs_resending tells whether THIS comm
+\* thread has safelink
 NeedsResendingIsNotSafelink == pc # "neg" => (needsRes = ~hasSL)
 Lockstep == hasSL => hUp = hDown
-TypeOK == /\ pc \in {"neg", "tx", "put", "get"} /\ Len(outQ) <= 1
+TypeOK == /\ pc \in {"neg", "tx", "put", "get", "paused"} /\ Len(outQ) <= 1
           /\ hUp \in 0..1 /\ hDown \in 0..1 /\ negLeft \in 0..negAtt
+\* state constraint for configurations in which a raw-mode host can meet a peer that has safelink
+\* switched on (all start-up acks lost): that peer repeats its last payload for ever and the host
+\* queues every copy (no claim applies there), so in_queue is cut off
+InQBound == Len(inQ) <= NDown + 2
 \* liveness: under FairSpec everything accepted / queued eventually arrives and stays so
 EventuallyDelivered ==
-    <>[](P!Claimed(h) /\ ~h.failed => (h.cf = h.acc /\ h.got = h.cfq))
+    <>[](P!Claimed(h) /\ ~P!Frozen(h) => (h.cf = h.acc /\ h.got = h.cfq))
 =============================================================================
